@@ -45,13 +45,15 @@ def exact_fwer(pv, D, name, plus1, order=None):
 def run(ctx):
     from permute import npc
     ops, meta = [], []
-    user = lambda p: -np.sum(p)
+    user_sym = lambda p: -np.sum(p)
+    posw = lambda p: -np.sum(np.asarray(p, dtype=float) / np.arange(1, len(p) + 1))      # weights by position: not symmetric
+    user = None
     for _ in range(ctx.n(600, 8000)):
         j = ctx.rng.randint(2, 6)
         B = ctx.rng.randint(2, 30) if ctx.rng.random() < 0.93 else ctx.rng.choice([64, 120])
         plus1 = ctx.rng.random() < 0.5
-        comb = ctx.rng.choice(["fisher", "tippett", "callable", "liptak"])
-        name = {"callable": "negsum"}.get(comb, comb)
+        comb = ctx.rng.choice(["fisher", "tippett", "callable", "liptak", "callable-posw"])
+        name = {"callable": "negsum", "callable-posw": "negposw"}.get(comb, comb)
         den = ctx.rng.choice([B + (1 if plus1 else 0), 64, 20])
         base = sorted(ctx.rng.sample(range(1, den + 1), min(j, den)))
         while len(base) < j:
@@ -72,13 +74,23 @@ def run(ctx):
             pv[ctx.rng.randrange(j)] = Fr(1); ctx.count("raw-p-equal-1")
         hi = ctx.rng.choice([2, 4, 9])
         D = [[ctx.rng.randint(0, hi) for _ in range(j)] for _ in range(B)]
+        ulp_mode = False
+        if comb == "tippett" and ctx.rng.random() < 0.3:
+            # raw p-values one ulp off the attainable grid k/(B+c) (complements such as 1 - 0.9 = 0.09999999999999998): Tippett's
+            # max(1 - p) is then decided by double rounding, and the oracle is the definition evaluated in doubles
+            c_ = 1 if plus1 else 0; ulp_mode = True; ctx.count("tippett-one-ulp-off-grid")
+            fl = []
+            for _k in range(j):
+                g_ = ctx.rng.randint(1, B + c_) / (B + c_)
+                fl.append(ctx.rng.choice([1.0 - (1.0 - g_), float(np.nextafter(g_, 0.0)), float(np.nextafter(g_, 2.0)) if g_ < 1 else g_, g_]))
+            pv = [Fr(v) for v in fl]
         pf = POOL.get("pv", [float(v) for v in pv], float); Df = layout(POOL.get("distr", D, float), ctx.rng)
         snap_p, snap_D = pf.copy(), Df.copy()
         if ctx.rng.random() < 0.35:      # other combiners first, on the very same contents and options
             for first in ctx.rng.sample(["liptak", "tippett", "fisher"], 2):
                 guarded(npc.fwer_minp, pf, Df, combine=first, plus1=plus1)
                 guarded(npc.npc, pf, Df, combine=first, plus1=plus1)
-        r = guarded(npc.fwer_minp, pf, Df, combine=(user if comb == "callable" else comb), plus1=plus1)
+        r = guarded(npc.fwer_minp, pf, Df, combine=({"callable": user_sym, "callable-posw": posw}.get(comb, comb)), plus1=plus1)
         nontriv = any(pv[i] > pv[i + 1] for i in range(j - 1))
         det = {"call": "fwer_minp", "pvalues": [str(v) for v in pv], "distr": D, "combine": comb, "plus1": plus1}
         ctx.case((tuple(pv), tuple(map(tuple, D)), comb, plus1), nontriv, det)
@@ -88,6 +100,22 @@ def run(ctx):
         if r[0] != "ok":
             det.update({"issue": "call failed", "returned": r[1:]}); ctx.violation("oracle", det, site="fwer_minp"); continue
         out = [float(v) for v in r[1]]
+        if ulp_mode:
+            order = [int(i) for i in np.argsort(pf)]; c_ = 1 if plus1 else 0
+            Pf = np.array([[(sum(1 for u in D if u[jj_] >= row[jj_]) + 2 * c_) / (B + c_) for jj_ in range(j)] for row in D])
+            pfl = np.array([float(v) for v in pv])
+            vals_ = []
+            for jj in range(j - 1):
+                cols = order[jj:]
+                stat = np.max(1 - Pf[:, cols], axis=1); obs_ = np.max(1 - pfl[cols])
+                vals_.append((c_ + int(np.sum(stat >= obs_))) / (c_ + B))
+            vals_.append(float(pfl[order[-1]]))
+            run_ = np.maximum.accumulate(vals_)
+            if len(out) != j or any(abs(out[order[k]] - run_[k]) > 1e-12 for k in range(j)):
+                det.update({"issue": "Tippett with raw p-values one ulp off the grid: not the closed-testing values of the definition evaluated in doubles",
+                            "pvalues_as_doubles": [repr(float(v)) for v in pv], "returned": out, "expected_in_sorted_order": [float(v) for v in run_], "order": order})
+                ctx.violation("oracle", det, site="fwer_minp")
+            continue
         if comb == "liptak":
             # double-precision oracle: numerator brackets of every nested npc, running maxima of both ends
             order = [int(i) for i in np.argsort(pf)]; c_ = 1 if plus1 else 0
@@ -120,7 +148,7 @@ def run(ctx):
         # relabelling (distinct raw p-values): permute pvalues and columns together
         if len(set(pv)) == j:
             perm = list(range(j)); ctx.rng.shuffle(perm)
-            r2 = guarded(npc.fwer_minp, pf[perm], Df[:, perm], combine=(user if comb == "callable" else comb), plus1=plus1)
+            r2 = guarded(npc.fwer_minp, pf[perm], Df[:, perm], combine=({"callable": user_sym, "callable-posw": posw}.get(comb, comb)), plus1=plus1)
             w2, amb2, _ = exact_fwer([pv[i] for i in perm], [[row[i] for i in perm] for row in D], name, plus1)
             if not amb2 and (r2[0] != "ok" or not all(close(float(r2[1][k]), want[perm[k]]) for k in range(j))):
                 det.update({"issue": "relabelling the hypotheses does not permute the output", "perm": perm,
